@@ -60,9 +60,33 @@ def coq_project():
             raise RuntimeError('coq_makefile failed: ' + out)
 
 
-def build_harness():
-    rc, out, dt = sh(['go', 'build', '-tags', 'verif', '-o', BUILD + '/vh', '.'], cwd=V + '/harness', timeout=1500)
+def build_harness(pkg):
+    if not os.path.exists(V + '/harness/go.sum'):
+        shutil.copy('/repo/go.sum', V + '/harness/go.sum')
+    rc, out, dt = sh(['go', 'build', '-tags', 'verif', '-o', f'{BUILD}/vh-{pkg}', f'./cmd/{pkg}'], cwd=V + '/harness', timeout=1500)
     return rc, out, dt
+
+
+def load_meta(pid):
+    """A property's meta is the merge of meta/parts/<pid>.<group>.json (several groups may contribute
+    theorem files and harness commands to one property)."""
+    parts = [json.load(open(f)) for f in sorted(glob.glob(f'{V}/meta/parts/{pid}.*.json'))]
+    if not parts:
+        raise SystemExit(f'no meta/parts/{pid}.*.json')
+    m = {'props_files': [], 'harness': [], 'trusted_base': [], 'assumptions': []}
+    for p in parts:
+        m['props_files'] += p.get('props_files', [])
+        if p.get('harness'):
+            m['harness'].append(p['harness'])
+        m['trusted_base'] += p.get('trusted_base', [])
+        m['assumptions'] += p.get('assumptions', [])
+        for k in ('make_timeout_s', 'harness_timeout_s', 'shard_timeout_s', 'shard_workers', 'coqchk_timeout_s'):
+            if k in p:
+                m[k] = max(m.get(k, 0), p[k])
+        for k in ('technique', 'level_text', 'level_note', 'design_ref'):
+            if p.get(k):
+                m[k] = (m[k] + ' || ' if m.get(k) else '') + p[k]
+    return m
 
 
 def main():
@@ -75,7 +99,7 @@ def main():
     pid = a.prop
     if a.tier not in ('quick', 'thorough'):
         a.tier = 'quick'
-    meta = json.load(open(f'{V}/meta/{pid}.json'))
+    meta = load_meta(pid)
     t0 = time.time()
     replay_expect = None
     if a.replay:
@@ -85,101 +109,129 @@ def main():
         replay_expect = rp.get('signature')
         print(f'replaying {a.replay}: seed={a.seed} tier={a.tier} signature={replay_expect}')
 
-    known = json.load(open(V + '/known_findings.json'))
-    listed = {f['signature']: f for f in known.get('findings', []) if f['property'] == pid}
+    listed = {}
+    for kf in [V + '/known_findings.json'] + sorted(glob.glob(V + '/known_findings.d/*.json')):
+        known = json.load(open(kf))
+        listed.update({f['signature']: f for f in known.get('findings', []) if f['property'] == pid})
 
     broken = []       # obligations / ties that no longer check: dicts {kind, what, detail}
     log = {}
-    props_file = meta.get('props_file', f'Props/{pid}.v')
-    run_dir = f'{BUILD}/run/{pid}'
-    shutil.rmtree(run_dir, ignore_errors=True)
-    os.makedirs(run_dir, exist_ok=True)
+    props_files = meta['props_files']
+    run_root = f'{BUILD}/run/{pid}'
+    shutil.rmtree(run_root, ignore_errors=True)
+    os.makedirs(run_root, exist_ok=True)
 
     # ---- 1-3: build under the global lock
     pa_text = ''
-    coq_ok = False
+    built = {}
+    obligations = discharged = 0
+    thm_names = []
+    coq_ok = True
+    checker_cmds = []
     with Lock():
-        rc, out, dt = build_harness()
-        log['harness_build_s'] = round(dt, 1)
-        harness_ok = rc == 0
-        if rc != 0:
-            broken.append({'kind': 'harness-build', 'what': 'the correspondence harness no longer builds against /repo', 'detail': out[-3000:]})
-        if harness_ok:
-            rc, out, dt = sh([BUILD + '/vh', 'gen', '--repo', '/repo', '--out', COQ + '/Gen'], timeout=300)
+        for h in meta['harness']:
+            pkg = h['pkg']
+            if pkg in built:
+                continue
+            rc, out, dt = build_harness(pkg)
+            log[f'harness_build_{pkg}_s'] = round(dt, 1)
+            built[pkg] = rc == 0
             if rc != 0:
-                broken.append({'kind': 'translator', 'what': 'vh gen failed', 'detail': out[-3000:]})
+                broken.append({'kind': 'harness-build', 'what': f'the correspondence harness cmd/{pkg} no longer builds against /repo', 'detail': out[-3000:]})
+                continue
+            rc, out, dt = sh([f'{BUILD}/vh-{pkg}', 'gen', '--repo', '/repo', '--out', COQ + '/Gen'], timeout=600)
+            if rc != 0:
+                broken.append({'kind': 'translator', 'what': f'vh-{pkg} gen failed', 'detail': out[-3000:]})
         coq_project()
-        vo = COQ + '/' + props_file[:-2] + '.vo'
-        if os.path.exists(vo):
-            os.remove(vo)
-        checker_cmd = f'make -C {COQ} -j16 {props_file[:-2]}.vo'
-        rc, out, dt = sh(checker_cmd, timeout=int(meta.get('make_timeout_s', 1500)))
-        log['make_s'] = round(dt, 1)
-        log['make_tail'] = out[-1500:]
-        coq_ok = rc == 0
-        pa_text = out
-        if rc != 0:
+        for props_file in props_files:
+            vo = COQ + '/' + props_file[:-2] + '.vo'
+            if os.path.exists(vo):
+                os.remove(vo)
+            cmd = f'make -C {COQ} -j16 {props_file[:-2]}.vo'
+            checker_cmds.append(cmd)
+            rc, out, dt = sh(cmd, timeout=int(meta.get('make_timeout_s', 1500)))
+            log[f'make_{os.path.basename(props_file)}_s'] = round(dt, 1)
+            pa_text += out
+            src = open(COQ + '/' + props_file).read()
+            thms = [(m.start(), m.group(2)) for m in re.finditer(r'^(Theorem|Lemma|Example|Corollary)\s+(\w+)', src, re.M)]
+            obligations += len(thms)
+            thm_names += [n for _, n in thms]
+            if rc == 0:
+                discharged += len(thms)
+                continue
+            coq_ok = False
             m = re.search(r'File "([^"]+)", line (\d+), characters [\d-]+:\s*\n(Error:.*?)(?:\n\n|\nmake|\Z)', out, re.S)
             where = f'{m.group(1)}:{m.group(2)}' if m else 'unknown'
             err = m.group(3)[:1500] if m else out[-1500:]
-            broken.append({'kind': 'proof', 'what': f'Coq build of {props_file} failed at {where}', 'detail': err, 'file': m.group(1) if m else None, 'line': int(m.group(2)) if m else None})
-
-    # obligations: theorem-like statements in the Props file
-    src = open(COQ + '/' + props_file).read()
-    thms = [(m.start(), m.group(2)) for m in re.finditer(r'^(Theorem|Lemma|Example|Corollary)\s+(\w+)', src, re.M)]
-    obligations = len(thms)
-    if coq_ok:
-        discharged = obligations
-    else:
-        discharged = 0
-        b = [x for x in broken if x['kind'] == 'proof']
-        if b and b[0].get('file') and b[0]['file'].endswith(os.path.basename(props_file)) and b[0].get('line'):
-            off = sum(len(l) + 1 for l in src.split('\n')[:b[0]['line'] - 1])
-            discharged = len([1 for (pos, _) in thms if pos < off]) - 1
-            discharged = max(discharged, 0)
+            broken.append({'kind': 'proof', 'what': f'Coq build of {props_file} failed at {where}', 'detail': err})
+            if m and m.group(1).endswith(os.path.basename(props_file)):
+                off = sum(len(l) + 1 for l in src.split('\n')[:int(m.group(2)) - 1])
+                discharged += max(len([1 for (pos, _) in thms if pos < off]) - 1, 0)
+    checker_cmd = ' && '.join(checker_cmds)
     n_closed = len(re.findall(r'Closed under the global context', pa_text))
     ax_blocks = re.findall(r'Axioms:\n((?:[^\n]+\n)+?)(?:\n|\Z|(?=COQC|make))', pa_text + '\n')
     axioms = sorted(set(re.findall(r'^([\w.\']+)\s*:', ''.join(ax_blocks), re.M)))
     assumptions_printed = n_closed + len(ax_blocks)
 
-    # ---- 4: correspondence + finder
-    summary = None
+    # ---- 4: correspondence + finder (every harness part of this property)
+    summaries = []
     mismatches = []
-    shards_ok = 0
-    if harness_ok:
-        cmd = [BUILD + '/vh', meta['harness_cmd'], '--tier', a.tier, '--seed', str(a.seed), '--out', run_dir]
+    shards_ok = shards_total = 0
+    for h in meta['harness']:
+        pkg, hc = h['pkg'], h['cmd']
+        if not built.get(pkg):
+            continue
+        run_dir = f'{run_root}/{pkg}-{hc}'
+        os.makedirs(run_dir, exist_ok=True)
+        cmd = [f'{BUILD}/vh-{pkg}', hc, '--tier', a.tier, '--seed', str(a.seed), '--out', run_dir]
         rc, out, dt = sh(cmd, timeout=int(meta.get('harness_timeout_s', 900 if a.tier == 'quick' else 7200)), cwd=run_dir)
-        log['harness_run_s'] = round(dt, 1)
+        log[f'harness_run_{pkg}_{hc}_s'] = round(dt, 1)
         if rc != 0 or not os.path.exists(run_dir + '/summary.json'):
-            broken.append({'kind': 'harness-run', 'what': f'harness command {meta["harness_cmd"]} failed (rc={rc})', 'detail': out[-3000:]})
-        else:
-            summary = json.load(open(run_dir + '/summary.json'))
-    if summary and coq_ok:
-        def one(shard):
-            rc, out, dt = sh(['coqc', '-Q', COQ, 'MV', '-w', '-notation-overridden', shard], cwd=run_dir, timeout=int(meta.get('shard_timeout_s', 900)))
-            return shard, rc, out, dt
+            broken.append({'kind': 'harness-run', 'what': f'harness command vh-{pkg} {hc} failed (rc={rc})', 'detail': out[-3000:]})
+            continue
+        summary = json.load(open(run_dir + '/summary.json'))
+        summary['_dir'] = run_dir
+        summaries.append(summary)
+    if coq_ok:
+        jobs = [(sm['_dir'], shard) for sm in summaries for shard in (sm.get('shards') or [])]
+        shards_total = len(jobs)
+
+        def one(job):
+            d, shard = job
+            rc, out, dt = sh(['coqc', '-Q', COQ, 'MV', '-w', '-notation-overridden', shard], cwd=d, timeout=int(meta.get('shard_timeout_s', 900)))
+            return d, shard, rc, out, dt
         t1 = time.time()
         with ThreadPoolExecutor(max_workers=int(meta.get('shard_workers', 12))) as ex:
-            for shard, rc, out, dt in ex.map(one, summary.get('shards') or []):
+            for d, shard, rc, out, dt in ex.map(one, jobs):
                 m = re.search(r'M\s*=\s*(\[[^\]]*\])', out, re.S)
                 if rc == 0 and m and re.sub(r'\s', '', m.group(1)) == '[]':
                     shards_ok += 1
                     continue
-                idxs = []
-                if m:
-                    idxs = [int(x) for x in re.findall(r'\d+', m.group(1))]
+                idxs = [int(x) for x in re.findall(r'\d+', m.group(1))] if m else []
                 cases = []
                 try:
-                    descr = json.load(open(run_dir + '/' + shard[:-2] + '.cases.json'))
+                    descr = json.load(open(d + '/' + shard[:-2] + '.cases.json'))
                     cases = [descr[i] for i in idxs[:3] if i < len(descr)]
                 except Exception:
                     pass
-                mismatches.append({'shard': shard, 'rc': rc, 'indices': idxs[:50], 'first_cases': cases, 'output_tail': '' if m else out[-1500:]})
+                mismatches.append({'shard': os.path.basename(d) + '/' + shard, 'rc': rc, 'indices': idxs[:50], 'first_cases': cases, 'output_tail': '' if m else out[-1500:]})
         log['shards_s'] = round(time.time() - t1, 1)
         if mismatches:
             broken.append({'kind': 'correspondence', 'what': f'model and implementation disagree in {len(mismatches)} shard(s)', 'detail': mismatches[:3]})
-    elif summary and not coq_ok:
+    else:
         log['shards_skipped'] = 'Coq build failed'
+    # merged summary
+    summary = None
+    if summaries:
+        summary = {'evaluations': sum(x.get('evaluations', 0) for x in summaries),
+                   'distinct_nontrivial': sum(x.get('distinct_nontrivial', 0) for x in summaries),
+                   'rule': ' || '.join(x.get('rule', '') for x in summaries),
+                   'samples': [y for x in summaries for y in (x.get('samples') or [])[:4]],
+                   'exhaustive': all(x.get('exhaustive', False) for x in summaries),
+                   'distribution': {k: v for x in summaries for k, v in (x.get('distribution') or {}).items()},
+                   'property_failures': [y for x in summaries for y in (x.get('property_failures') or [])],
+                   'shards': [y for x in summaries for y in (x.get('shards') or [])],
+                   'extra': {k: v for x in summaries for k, v in (x.get('extra') or {}).items()}}
 
     # ---- 5: decide
     lines = []
@@ -224,14 +276,14 @@ def main():
         'checker_cmd': checker_cmd + ' (coqc 8.16.1 full .vo build; shards: coqc + vm_compute)',
         'trusted_base': meta.get('trusted_base', []) + ['Coq 8.16.1 kernel incl. vm_compute; no native_compute',
                                                           'Print Assumptions: ' + (f'{n_closed} theorem(s) closed under the global context' + ('; axioms used: ' + '; '.join(axioms) if axioms else '') if assumptions_printed else 'not printed (build failed)')],
-        'theorems': [n for _, n in thms],
+        'theorems': thm_names,
         'evaluations': (summary or {}).get('evaluations', 0),
         'distinct_nontrivial': (summary or {}).get('distinct_nontrivial', 0),
         'rule': (summary or {}).get('rule', ''),
         'samples': ((summary or {}).get('samples') or [])[:6] or [{'note': 'harness did not run'}],
         'exhaustive': bool((summary or {}).get('exhaustive', False)),
         'distribution': (summary or {}).get('distribution', {}),
-        'shards': len((summary or {}).get('shards') or []), 'shards_ok': shards_ok,
+        'shards': shards_total, 'shards_ok': shards_ok,
         'mismatches': mismatches[:5],
         'finder_failures': [{'signature': f['signature'], 'what': f['what']} for f in fails[:10]],
         'known_findings_hit': known_hit,
@@ -241,7 +293,7 @@ def main():
         'extra': (summary or {}).get('extra', {}),
     }
     if a.tier == 'thorough' and coq_ok and meta.get('coqchk', True):
-        mod = 'MV.' + props_file[:-2].replace('/', '.')
+        mod = ' '.join('MV.' + pf[:-2].replace('/', '.') for pf in props_files)
         with Lock('coqchk.lock'):
             rc, out, dt = sh(f'coqchk -silent -o -Q {COQ} MV {mod}', timeout=int(meta.get('coqchk_timeout_s', 2400)))
         cov['coqchk'] = {'rc': rc, 'seconds': round(dt, 1), 'tail': out[-1200:]}
